@@ -22,7 +22,7 @@ RULE = ("per group: (a) elements X from axis-angle (angle 0..pi-0.05; both quate
 ASSUMPTIONS = ["rotation angles within 0.05 rad of pi are excluded (log is singular there)",
                "numpy/scipy oracles; CasADi VM"]
 N_QUICK = 12000
-N_THOROUGH = 150000
+N_THOROUGH = 400000
 
 
 def run(ctx):
